@@ -74,6 +74,13 @@ func main() {
 			os.Exit(2)
 		}
 	}
+	if os.Getenv("C07_REVERSE") != "" {
+		// the files of the program in reverse order: per-file outputs must not
+		// depend on which file of the list was generated first in the process
+		for i, j := 0, len(files)-1; i < j; i, j = i+1, j-1 {
+			files[i], files[j] = files[j], files[i]
+		}
+	}
 	l, err := gen.Load(dir, files)
 	if err != nil {
 		fmt.Fprintln(os.Stderr, "load:", err)
